@@ -2,4 +2,5 @@ pub mod alloc;
 pub mod chanrun;
 pub mod containers;
 pub mod life;
+pub mod seq;
 pub mod uni;
